@@ -260,8 +260,20 @@ def rule_profile(ck, units):
                         continue
                     (prof if nm == 'ptr' else store).setdefault(nm, set()).update(cases)
                     # value guards (not index comparisons) around the statement: `if (!math::is_zero(v))`
-                    import c01
-                    vg = frozenset(g for g in c01.guards_of(f, n) if not any(op in g for op in ('<', '>', '==')))
+                    import twopass
+
+                    def lits(fm, pol=True):
+                        # literals of the top-level conjunction (value atoms only; index comparisons are handled by order_cases)
+                        if fm[0] == 'and' and pol:
+                            return lits(fm[1], True) | lits(fm[2], True)
+                        if fm[0] == 'or' and not pol:
+                            return lits(fm[1], False) | lits(fm[2], False)
+                        if fm[0] == 'not':
+                            return lits(fm[1], not pol)
+                        if fm[0] == 'atom':
+                            return {('' if pol else '!') + fm[1]}
+                        return set()
+                    vg = frozenset(lits(twopass.path_condition(f, n, loops[-1], {})))
                     (prof_guards if nm == 'ptr' else store_guards).append((n, vg))
             if not store:
                 continue
